@@ -1,5 +1,6 @@
 """C10 — nothing is dropped silently: the meaning of 'full'."""
 import random
+import re
 
 import chem
 import chemgen
@@ -61,7 +62,7 @@ def run(rep, tier, driver):
         base = gen.render(t, "full")
         nodes = list(t.nodes())
         victim = rng.choice(nodes)
-        kind = rng.choice(["none", "unknown-sugar", "dead-mod", "missing-position", "qmark-link", "qmark-anomer", "fragment"])
+        kind = rng.choice(["none", "unknown-sugar", "second-sugar-token", "dead-mod", "missing-position", "qmark-link", "qmark-anomer", "fragment"])
         variant = None
         injected = None
         if kind == "unknown-sugar":
@@ -69,6 +70,15 @@ def run(rep, tier, driver):
             victim.name = rng.choice(unknown_sugars)
             variant = gen.render(t, "full")
             victim.name = old
+        elif kind == "second-sugar-token":
+            # a residue written with a second sugar name directly behind the first ('ManUnk', 'GlcGal'): the grammar takes it as one
+            # residue, the second name is not a chain-length name and cannot be realised
+            old = victim.name
+            if re.fullmatch(r"[A-Z][a-z]+", old):
+                victim.name = old + rng.choice(["Unk", "Unk", "Gal", "Man", "Suc", "Fuc"])
+                if victim.name not in ("GalMan",):
+                    variant = gen.render(t, "full")
+                victim.name = old
         elif kind == "dead-mod" and dead_fg:
             old = victim.name
             free = [p for p, e in cv.get(old)["free"] if p != cv.get(old).get("anomeric")] or [3]
@@ -115,6 +125,17 @@ def run(rep, tier, driver):
             if variant is not None and kind != "none":
                 jobs.append((variant, full))
                 meta.append((i, "variant", full, kind, base))
+    # directed: a second sugar name directly behind the first, at the root, at a leaf, inside, in an open form
+    i0 = 10 ** 6
+    for base, variant in [("Man", "ManUnk"), ("Man", "ManGal"), ("Glc", "GlcSuc"), ("Glc(a1-4)Glc", "GlcMan(a1-4)Glc"), ("Man(a1-4)Glc", "Man(a1-4)GlcUnk"),
+                          ("Man(a1-3)[Man(a1-6)]Man(b1-4)GlcNAc", "ManUnk(a1-3)[Man(a1-6)]Man(b1-4)GlcNAc"), ("Man-ol", "ManGal-ol"),
+                          ("Gal(b1-4)Glc(b1-3)Gal", "Gal(b1-4)GlcFuc(b1-3)Gal"), ("Fuc(a1-2)Gal", "FucXyl(a1-2)Gal")]:
+        i0 += 1
+        for full in (True, False):
+            jobs.append((base, full))
+            meta.append((i0, "base", full, "second-sugar-token", base))
+            jobs.append((variant, full))
+            meta.append((i0, "variant", full, "second-sugar-token", base))
     # directed: an unsupported modification next to modifications that make the reactor take a second round (a group on a carbon that
     # only exists after another group has added it: '6Me' + '7S'), in every written order, alone and inside a disaccharide
     multi = []
